@@ -568,7 +568,7 @@ def check_free(case):
 
 def parts(tier):
     return [
-        Part("histories", kind="machine", interp=History, rules=H_RULES, n={"quick": 256, "thorough": 6000},
+        Part("histories", kind="machine", interp=History, rules=H_RULES, n={"quick": 224, "thorough": 6000},
              steps={"quick": 14, "thorough": 30}),
         Part("schedules", strategy=_thread_case(True), check=check_schedule, n={"quick": 160, "thorough": 3200}),
         Part("free-threads", strategy=_thread_case(False), check=check_free, n={"quick": 120, "thorough": 2400}),
